@@ -414,6 +414,13 @@ func H03f_publish_setters() {
 	p.Flags = p.Flags&0x08 | q<<1 | vrtB2b(r, 1)
 	if q == 0 {
 		p.ID = 0
+	} else if vrtBool("renumber") {
+		// a decoded message sent on under a new identifier (bridging, re-publishing from a callback)
+		nid := vrtUint16("newid")
+		vrtAssume(nid != 0)
+		m.SetPacketID(nid)
+		p.ID = nid
+		vrtAssert("C03.setters_packet_id", m.PacketID() == nid)
 	}
 	want := specEncode(&p)
 	vrtAssert("C03.setters_len", m.Len() == len(want))
